@@ -59,7 +59,7 @@ func (s *Sched) Register(name, kind, key string) *Thread {
 	g := goid()
 	s.mu.Lock()
 	defer s.mu.Unlock()
-	th := &Thread{Name: name, Kind: kind, Key: key, resume: make(chan struct{}), Data: map[string]any{}}
+	th := &Thread{Name: name, Kind: kind, Key: key, resume: make(chan struct{}), Data: map[string]any{"goid": g}}
 	s.byGoid[g] = th
 	s.Threads = append(s.Threads, th)
 	return th
@@ -107,7 +107,7 @@ func (s *Sched) Park(label, key string) {
 			s.mu.Unlock()
 			return
 		}
-		th = &Thread{Name: name, Kind: kind, Key: key, resume: make(chan struct{}), Data: map[string]any{}}
+		th = &Thread{Name: name, Kind: kind, Key: key, resume: make(chan struct{}), Data: map[string]any{"goid": g}}
 		s.byGoid[g] = th
 		s.Threads = append(s.Threads, th)
 	}
